@@ -83,11 +83,11 @@ def stratified_meshes(n, count, rng, doubled=True):
         tries += 1
         k = rng.randint(max(1, len(pairs) // 2), len(pairs))
         out.add(mesh_id(n, {p: rng.randint(1, KINDS) for p in rng.sample(pairs, k)}))
-    # every fourth mesh gets a second, parallel link pair between two of its linked sites (MC_Routing: Doubling)
+    # every third mesh gets a second, parallel link pair between two of its linked sites (MC_Routing: Doubling)
     res = []
     for i, m in enumerate(sorted(out)):
         linked = [j for j in range(len(pairs)) if (m // BASE ** j) % BASE]
-        if doubled and i % 4 == 3 and linked:
+        if doubled and i % 3 == 2 and linked:
             m += (rng.choice(linked) + 1) * BASE ** len(pairs)
         res.append(m)
     return sorted(res)
@@ -106,7 +106,7 @@ def mc_cfg(emit=False, sanity=True, **kw):
     sanity=False: only the clauses of the properties and JudgeAcceptsModel (the model-level sanity invariants of the
     judgement are checked exhaustively on 3 sites and on the sampled 4-site meshes)"""
     vals = dict(NSites=4, UseSample='FALSE', OneSrcDst='TRUE', Thin=1, LinePer=6, TwinPer=1, PairPer=8, TriplePer=2,
-                OverlapPer=2, GroupsExhaustive='FALSE', Doubling='FALSE', Salt=0)
+                OverlapPer=2, GroupsExhaustive='FALSE', Doubling='FALSE', PairsFirstAll='TRUE', Salt=0)
     for k, v in kw.items():
         if k not in vals:
             raise Machinery(f'unknown MC_Routing constant {k}')
@@ -167,6 +167,7 @@ def generate(chk, ids, tag, workers=None, **consts):
         j = jobs.setdefault(c['mesh'], dict(mesh=c['mesh'], n=c['n'], links=sorted(c['links']), batches=[]))
         b = c['batch']
         b['info'] = c['info']
+        b['div'] = c['div']
         j['batches'].append(b)
     for j in jobs.values():
         j['batches'].sort(key=lambda b: json.dumps([b['reqs'], b['groups']], sort_keys=True))
@@ -316,8 +317,48 @@ class NetBench:
             return spans[pick % len(spans)]
         return self.roadm_of_site[code]
 
-    def service_json(self, b, bidir=True, pick=0):
+    def arc_elements(self, uid):
+        """all the line elements of the ROADM-to-ROADM chain that holds uid, in the order a signal crosses them
+        (walked on the designed graph itself: a line element has one predecessor and one successor)"""
+        from gnpy.core.elements import Roadm
+        nodes = getattr(self, '_nodes', None)
+        if nodes is None:
+            nodes = self._nodes = {n.uid: n for n in self.net.nodes()}
+        el = nodes[uid]
+        chain = [el]
+        while True:
+            prev = next(iter(self.net.predecessors(chain[0])))
+            if isinstance(prev, Roadm) or len(chain) > 400:
+                break
+            chain.insert(0, prev)
+        while True:
+            nxt = next(iter(self.net.successors(chain[-1])))
+            if isinstance(nxt, Roadm) or len(chain) > 800:
+                break
+            chain.append(nxt)
+        return [e.uid for e in chain]
+
+    def hops_of(self, r, style=0):
+        """the route objects of one request: [(uid, 'STRICT' | 'LOOSE'), ...].  A hop of the specification naming a
+        line element of an arc is written either as one element of that arc or - every other style - element by
+        element, as the run of ALL the elements of that arc in the order they are crossed (same hop type): crossing
+        the arc and crossing all its elements in order are the same thing."""
+        out = []
+        for i, (c, st) in enumerate(zip(r['inc'], r['strict'])):
+            uid = self.uid_of(c, style + i)
+            lab = 'STRICT' if st else 'LOOSE'
+            if c > LINE and (style // 3) % 2 == 1:
+                out += [(u, lab) for u in self.arc_elements(uid)]
+            else:
+                out.append((uid, lab))
+        return out
+
+    def service_json(self, b, bidir=True, style=0):
+        """the batch as a service file.  The order of the route objects is carried by their `index` only: the indices
+        are increasing but start at 0, 8 or 98 (style), and the objects are written in reverse order every other
+        style.  A synchronisation vector states the diversity the batch asks for (b['div'], default 'node link')."""
         reqs = []
+        base = (0, 8, 98)[style % 3]
         for k, r in enumerate(b['reqs']):
             s, d = self.trx_of_site[r['s']], self.trx_of_site[r['d']]
             j = {'request-id': f'r{k + 1}', 'source': s, 'destination': d, 'src-tp-id': s, 'dst-tp-id': d,
@@ -325,40 +366,74 @@ class NetBench:
                  'path-constraints': {'te-bandwidth': {'technology': 'flexi-grid', 'trx_type': 'Voyager',
                                                        'trx_mode': 'mode 1', 'spacing': 50e9,
                                                        'path_bandwidth': 100e9}}}
-            if r['inc']:
-                j['explicit-route-objects'] = {'route-object-include-exclude': [
-                    {'explicit-route-usage': 'route-include-ero', 'index': i,
-                     'num-unnum-hop': {'node-id': self.uid_of(c, pick + i), 'link-tp-id': 'link-tp-id is not used',
-                                       'hop-type': 'STRICT' if st else 'LOOSE'}}
-                    for i, (c, st) in enumerate(zip(r['inc'], r['strict']))]}
+            hops = self.hops_of(r, style)
+            if hops:
+                objs = [{'explicit-route-usage': 'route-include-ero', 'index': base + i,
+                         'num-unnum-hop': {'node-id': uid, 'link-tp-id': 'link-tp-id is not used', 'hop-type': lab}}
+                        for i, (uid, lab) in enumerate(hops)]
+                j['explicit-route-objects'] = {'route-object-include-exclude': objs[::-1] if style % 2 else objs}
             reqs.append(j)
         data = {'path-request': reqs}
         if b['groups']:
+            div = b.get('div') or ['node link'] * len(b['groups'])
             data['synchronization'] = [
                 {'synchronization-id': f'g{k + 1}',
-                 'svec': {'relaxable': False, 'disjointness': 'node link',
+                 'svec': {'relaxable': False, 'disjointness': div[k],
                           'request-id-number': [f'r{i}' for i in g]}} for k, g in enumerate(b['groups'])]
         return data
 
-    def run_batch(self, b, bidir=True, pick=0, limit=None):
-        """the real pipeline on one batch -> event for Trace_Routing (or {'exc': ...})"""
-        data = self.service_json(b, bidir, pick)
-        return self.run_service(data, [f'r{k + 1}' for k in range(len(b['reqs']))], b, limit)
+    def api_objects(self, b, bidir=True, style=0):
+        """the batch as objects built through the API: PathRequest(**params) - WITHOUT nodes_list / loose_list when
+        the request has no include list - and Disjunction(**params)"""
+        from gnpy.core.equipment import trx_mode_params
+        from gnpy.topology.request import PathRequest, Disjunction
+        rqs = []
+        for k, r in enumerate(b['reqs']):
+            params = {'request_id': f'r{k + 1}', 'source': self.trx_of_site[r['s']],
+                      'destination': self.trx_of_site[r['d']], 'bidir': bidir, 'trx_type': 'Voyager',
+                      'trx_mode': 'mode 1', 'format': 'mode 1', 'spacing': 50e9, 'path_bandwidth': 100e9,
+                      'nb_channel': 80, 'power': 1e-3, 'tx_power': 1e-3,
+                      'effective_freq_slot': [{'N': None, 'M': None}]}
+            params.update(trx_mode_params(self.eq, 'Voyager', 'mode 1', True))
+            hops = self.hops_of(r, style)
+            if hops:
+                params['nodes_list'] = [u for u, _ in hops]
+                params['loose_list'] = [lab for _, lab in hops]
+            rqs.append(PathRequest(**params))
+        div = b.get('div') or ['node link'] * len(b['groups'])
+        dsjn = [Disjunction(disjunction_id=f'g{k + 1}', relaxable=False, link_diverse='link' in div[k],
+                            node_diverse='node' in div[k], disjunctions_req=[f'r{i}' for i in g])
+                for k, g in enumerate(b['groups'])]
+        return rqs, dsjn
 
-    def run_service(self, data, ids, b, limit=None):
+    def run_batch(self, b, bidir=True, pick=0, limit=None):
+        """the real pipeline on one batch -> event for Trace_Routing (or {'exc': ...}); pick selects how the batch is
+        written: every fifth through the API objects, the others as a service file (index base, order, expansion)"""
+        ids = [f'r{k + 1}' for k in range(len(b['reqs']))]
+        if pick % 5 == 4:
+            return self.run_service(None, ids, b, limit, api=lambda: self.api_objects(b, bidir, pick))
+        return self.run_service(self.service_json(b, bidir, pick), ids, b, limit)
+
+    def run_service(self, data, ids, b, limit=None, api=None):
         from gnpy.tools.json_io import requests_from_json, disjunctions_from_json
         from gnpy.topology.request import (correct_json_route_list, deduplicate_disjunctions, requests_aggregation,
                                            compute_path_dsjctn, find_reversed_path)
         from gnpy.core.exceptions import DisjunctionError
         ev = dict(reqs=[{k: r[k] for k in ('s', 'd', 'inc', 'strict')} for r in b['reqs']], groups=b['groups'],
                   err=0, res=[])
+        import threading
+        if threading.current_thread() is not threading.main_thread():
+            limit = None                                          # alarms exist in the main thread only
         if limit:
             signal.signal(signal.SIGALRM, _alarm)
             signal.alarm(limit)
         try:
-            rqs = requests_from_json(data, self.eq)
+            if api is not None:
+                rqs, dsjn = api()
+            else:
+                rqs, dsjn = requests_from_json(data, self.eq), disjunctions_from_json(data)
             rqs = correct_json_route_list(self.net, rqs)
-            dsjn = deduplicate_disjunctions(disjunctions_from_json(data))
+            dsjn = deduplicate_disjunctions(dsjn)
             rqs, dsjn = requests_aggregation(rqs, dsjn)
             try:
                 pths = compute_path_dsjctn(self.net, self.eq, rqs, dsjn)
@@ -558,8 +633,9 @@ def report_exceptions(chk, excs, origin):
                                                             exception=x['exc'], traceback=x['tb']))
 
 
-def b2(chk, pid, jobs, origin='B2', keep=lambda b: True):
-    """replay the generated jobs into the real code and judge them; returns statistics"""
+def b2(chk, pid, jobs, origin='B2', keep=lambda b: True, extra=None):
+    """replay the generated jobs into the real code and judge them; returns statistics.
+    extra = (traces, metas) recorded elsewhere (B3): judged in the same TLC pass, reported under 'B3'"""
     jobs = [dict(j, batches=[b for b in j['batches'] if keep(b)]) for j in jobs.values()]
     jobs = [j for j in jobs if j['batches']]
     import time
@@ -576,7 +652,12 @@ def b2(chk, pid, jobs, origin='B2', keep=lambda b: True):
             traces.append(t)
             metas[t['name']] = m
     t0 = time.time()
-    verdicts = judge(traces, chk, f'{pid.lower()}-trace')
+    xtr, xmeta = extra or ([], {})
+    verdicts = judge(traces + list(xtr), chk, f'{pid.lower()}-trace')
+    for t in xtr:
+        chk.traces += report(chk, pid, t, xmeta[t['name']], verdicts[t['name']], 'B3')
+        for b in xmeta[t['name']]:
+            chk.case((t['name'], str(b['reqs']), str(b['groups'])), nontrivial=True)
     stats = dict(meshes=len(traces), batches=0, requests=0, conform=0, exceptions=nexc, verdicts={}, kinds={},
                  errors=0, strong=0, noweak=0, replay_s=round(t_replay, 1), judgement_s=round(time.time() - t0, 1))
     stats['max_hop_length_deviation_1e-9km'] = max([t.get('dev', 0) for t in traces] or [0])
@@ -747,7 +828,7 @@ def random_batches(bench, rng, count, groups=True, on_route=False, max_inc=2):
                 r3 = one()
                 out.append(dict(reqs=[r1, r2, r3], groups=[[1, 2], [2, 3]] if k % 12 == 11 else [[1, 2, 3]]))
             else:
-                out.append(dict(reqs=[r1, r2], groups=[[1, 2]]))
+                out.append(dict(reqs=[r1, r2], groups=[[1, 2]], div=[rng.choice(['node link', 'link', 'node'])]))
         else:
             out.append(dict(reqs=[r1], groups=[]))
     return out
